@@ -9,8 +9,9 @@ Open Scope N_scope.
 
 (* ---- complete and exact --------------------------------------------------------------------- *)
 (* Every document of the grammar — any well-nested sequence of text runs and domain tags (equivalently any tree,
-   C17_any_nesting), names [A-Za-z_][A-Za-z0-9_.-]*, blanks inside tags, text written with raw characters, any
-   entity spelling of a character, CR / CR LF line ends — whose lines are shorter than bufio.MaxScanTokenSize and
+   C17_any_nesting), names [A-Za-z_][A-Za-z0-9_.-]*, blanks inside tags, text written with raw ASCII characters,
+   runs of valid UTF-8, any entity spelling of a character (named, decimal, hexadecimal; >= 128 delivered UTF-8
+   encoded), CR / CR LF line ends — whose lines are shorter than bufio.MaxScanTokenSize and
    in which no key is named like a sub-domain of the same domain, is accepted, and the resulting tree represents
    exactly the document's events: every domain with all its lines in order, every key with its last value,
    nothing else, no duplicates. *)
